@@ -5,7 +5,7 @@ the file never shrinks).  The extracted checker is run on the interposed backend
 import vlib, proglib
 import C05_walk
 
-PROP_FILES = ["Properties_C14.v", "Properties_C14_writer.v", "Properties_compose.v"]
+PROP_FILES = ["Properties_C14.v", "Properties_C14_writer.v", "Properties_C14_reject.v", "Properties_compose.v"]
 
 
 def run_twr_logs(ctx):
